@@ -250,6 +250,36 @@ func c12(r *rand.Rand, tier string, tr *trace.Buf, extra map[string]interface{})
 			return 0
 		}), mk("", func(i int) int32 { return int32(r.Intn(5) - 2) })},
 	)
+	// factors of X^256 + 1: b = X^s - root^(s(2k+1)) vanishes on 256/(256/s) .. a whole subtree of the transform,
+	// so the pointwise product has blocks of exact zeros (zero operands of butterflies and of products)
+	powmod := func(b, e int64) int64 {
+		res, x := int64(1), b%Q
+		for ; e > 0; e >>= 1 {
+			if e&1 == 1 {
+				res = res * x % Q
+			}
+			x = x * x % Q
+		}
+		return res
+	}
+	for _, sh := range []int{128, 64, 32, 16, 8, 4, 2, 1} {
+		for _, k := range []int{0, r.Intn(256 / sh)} {
+			c := powmod(1753, int64(sh*(2*k+1)))
+			if c > Q/2 {
+				c -= Q
+			}
+			sh, c := sh, c
+			cases = append(cases, pc{"vanishing-factor", mk("", rnd), mk("", func(i int) int32 {
+				switch i {
+				case sh:
+					return 1
+				case 0:
+					return int32(-c)
+				}
+				return 0
+			})})
+		}
+	}
 	nmore := 2
 	if tier == "thorough" {
 		nmore = 10
@@ -263,7 +293,10 @@ func c12(r *rand.Rand, tier string, tr *trace.Buf, extra map[string]interface{})
 		dilithium.VerifNTT(&na)
 		dilithium.VerifNTT(&nb)
 		var prod dilithium.VerifPoly
-		dilithium.VerifPointwiseMontgomery(&prod, &na, &nb)
+		for i := range prod { // the destination is not fresh: the library reuses destination polynomials
+			prod[i] = int32(r.Intn(2*Q-1) - (Q - 1))
+		}
+		dilithium.VerifPointwiseMontgomeryInto(&prod, &na, &nb)
 		dilithium.VerifPolyReduce(&prod)
 		dilithium.VerifInvNTTToMont(&prod)
 		var pos []int
